@@ -22,6 +22,15 @@ def _aname(i):
     return ANAMES[i] if i < 26 else 'a%d' % i
 
 
+# attribute naming schemes of spec/Reduce.tla: the name of the first attribute of an object
+FIRSTNAME = {'ord': 'a', 'ext': 'extend', 'dun': '__tag__', 'prv': '_p', 'app': 'append', 'upd': 'update'}
+_SPECIAL = tuple(v for k, v in FIRSTNAME.items() if k != 'ord')
+
+
+def attr_names(o):
+    return [FIRSTNAME[o.get('n', 'ord')] if j == 0 else _aname(j) for j in range(len(o['a']))]
+
+
 # ------------------------------------------------------------------------------------------------ the family
 class P:
     """plain instance dictionary; default reduction: copyreg.__newobj__, (P,), state dict or None"""
@@ -38,12 +47,12 @@ class PA:
 
 class S:
     """__slots__ only: default state is the 2-tuple (None, {slot: value})"""
-    __slots__ = tuple(_aname(i) for i in range(8))
+    __slots__ = tuple(_aname(i) for i in range(8)) + _SPECIAL
 
 
 class SD:
     """__slots__ and an instance dictionary: default state is ({...dict...}, {slot: value})"""
-    __slots__ = ('a', '__dict__')
+    __slots__ = ('a',) + _SPECIAL + ('__dict__',)
 
 
 class GS:
@@ -337,12 +346,13 @@ def build(graph, pick=None):
             x.__setstate__({'items': pv})
         elif s in ('R2', 'R3', 'CR'):
             x.__init__(*pv)
+        names = attr_names(o)
         if s in ('P', 'S', 'SD', 'GS', 'NA', 'R3', 'RL', 'ML', 'MD', 'MS', 'MO', 'XS'):
             for j, v in enumerate(av):
-                setattr(x, _aname(j), v)       # SD: 'a' is the slot, b, c... go to the instance dictionary
+                object.__setattr__(x, names[j], v)   # SD: the first name is a slot, b, c... go to the instance dictionary
         elif s == 'PA':
             for j, v in enumerate(av):
-                x.__dict__[_aname(j)] = v
+                x.__dict__[names[j]] = v
     for i, o in enumerate(graph):              # last: GL copies out of a list that must be complete by now
         if o['s'] == 'GL':
             objs[i].__setstate__({'items': val(o['p'][0], i, 0)})
